@@ -291,7 +291,9 @@ inline void WriteJSON(JSONW jw,
 template <int kind>
 inline void WriteJSON(JSONW jw,
                       const AlgConRhs<kind>& acrhs) {
-  jw << acrhs.GetCmpName() << acrhs.rhs();
+  jw << acrhs.GetCmpName()        // no infinity in JSON
+     << (acrhs.rhs() < -DBL_MAX ? -DBL_MAX
+         : acrhs.rhs() > DBL_MAX ? DBL_MAX : acrhs.rhs());
 }
 
 } // namespace mp
